@@ -324,9 +324,12 @@ pub fn stages(ctx: &Ctx, strict: bool) {
             proptest::collection::vec(proptest::bool::weighted(0.7), 1..6),
             proptest::collection::vec((0u8..3, 0u8..3), 1..5),
             prop_oneof![Just(0u8), 2u8..9],
+            prop_oneof![12 => Just(0u16), 1 => 300u16..3000, 1 => 3000u16..40_000],
+            prop_oneof![3 => Just(vec![]), 1 => proptest::collection::vec(proptest::bool::weighted(0.6), 1..5)],
+            prop_oneof![3 => Just(0u8), 1 => 1u8..4],
         )
-            .prop_map(|(mut c, n, conj, fan, own_codepoints_every)| {
-                c.dag = Some(iftdrive::DagSpec { n, conj, fan, own_codepoints_every });
+            .prop_map(|(mut c, n, conj, fan, own_codepoints_every, n_big, ignored, ignored_but_last)| {
+                c.dag = Some(iftdrive::DagSpec { n, conj, fan, own_codepoints_every, n_big, ignored, ignored_but_last });
                 c.iftx = None;
                 c
             })
